@@ -368,6 +368,28 @@ theorem trim_cons (E : Env) (c : Char) (s : List Char) (hc : E.isWhite c = false
     have hx' : x ∈ s.reverse.dropWhile E.isWhite := List.mem_reverse.mp hx
     exact List.mem_reverse.mp (this.subset hx')
 
+/-- trimming keeps a non-empty prefix of non-white chars in place -/
+theorem trim_prefix (E : Env) (p s : List Char) (hne : p ≠ []) (hp : ∀ c ∈ p, E.isWhite c = false) :
+    ∃ s', trim E (p ++ s) = p ++ s' := by
+  unfold trim
+  have h1 : (p ++ s).dropWhile E.isWhite = p ++ s := by
+    cases p with
+    | nil => exact absurd rfl hne
+    | cons c p' => simp [hp c (List.mem_cons_self ..)]
+  rw [h1]
+  clear h1
+  induction p with
+  | nil => exact absurd rfl hne
+  | cons c p' ih =>
+    have hc := hp c (List.mem_cons_self ..)
+    rw [List.cons_append, rdrop_cons]
+    simp only [hc, Bool.false_eq_true, and_false, if_false]
+    cases p' with
+    | nil => exact ⟨_, rfl⟩
+    | cons c' p'' =>
+      obtain ⟨s', hs'⟩ := ih (by simp) (fun x hx => hp x (List.mem_cons_of_mem _ hx))
+      exact ⟨s', by rw [hs']; rfl⟩
+
 /-- trimming only removes chars -/
 theorem trim_subset (E : Env) (s : List Char) : ∀ x ∈ trim E s, x ∈ s := by
   intro x hx
@@ -421,6 +443,23 @@ theorem parseAddress_hex_digits {E : Env} (hE : E.AsciiOk) {cs : List Char} {ds 
   simp only [List.take_succ_cons, List.take_zero, if_true, List.drop_succ_cons, List.drop_zero]
   rw [numeral?_digits hne h]
   rfl
+
+/-- a numeral containing a char that is no digit of the radix, other than as its first char `+`, denotes nothing -/
+theorem numeral_none (radix : Nat) (s : List Char) (c : Char) (hcs : c ∈ s) (hdc : digit? radix c = none)
+    (hp : c ≠ '+') : numeral? radix s = none := by
+  unfold numeral?
+  have hcs' : c ∈ stripPlus s := by
+    unfold stripPlus
+    split
+    · rename_i r
+      rcases List.mem_cons.mp hcs with h | h
+      · exact absurd h hp
+      · exact h
+    · exact hcs
+  simp only
+  split
+  · rfl
+  · rw [digits?_none_of_mem hcs' hdc]
 
 /-! ### `Nat.toDigits` renderings are digit strings -/
 
